@@ -1,20 +1,29 @@
 (* DatalogProofs.v — the evaluator of Model/Datalog.v computes exactly the least
    fixpoint (C05) and honours its limits (C11 a).
 
-   Set-freeness.  [term_eqb] on [TSet] is Go's Set.Equal, which is neither
-   structural nor symmetric when elements repeat; the exactness theorems are
-   therefore stated for programs whose base facts and rule *heads* carry no set
-   constant.  Rule bodies and expressions are unrestricted: a set constant in a
-   body position simply never matches a set-free fact, and expression values
-   never flow into facts.  Soundness, [run_extends] and [run_nodup] need no
-   such hypothesis. *)
-From Coq Require Import Arith PeanoNat Permutation.
+   Equality.  [term_eqb] on [TSet] is Go's Set.Equal: same length and the same
+   elements.  It is an equivalence relation ([term_eqb_refl/sym/trans], and
+   [pred_eqb_refl/sym/trans] for facts) but not structural equality: [1,2] and
+   [2,1] are Equal.  [insert_fact] keeps the first representative of a class, so
+   the exactness theorems speak of facts up to Predicate.Equal ([fact_eqv], with
+   the library's [InA], [NoDupA], [equivlistA], [PermutationA]).
+
+   No fragment.  Matching, variable binding, head instantiation and every
+   operator of the expression language respect Set.Equal ([eval_binary_rel];
+   for [intersection] and [union] this is [set_intersect_equal] /
+   [set_union_equal], true since these operators return each element once).
+   Hence completeness modulo Equal ([run_complete]), the least-model theorem
+   ([C05_least_model]), [query_exact] and order-independence ([run_equivlist],
+   [run_perm]) hold for EVERY program: set constants with repeated elements
+   and set operators included.  For set-free programs the statements with
+   syntactic membership are kept as corollaries ([*_setfree]). *)
+From Coq Require Import Arith PeanoNat Permutation SetoidList SetoidPermutation.
 From BV Require Import Base Term Expr Datalog.
 
 Local Open Scope nat_scope.
 
 (* ------------------------------------------------------------------ *)
-(** * Equality on set-free terms *)
+(** * Equality: Term.Equal, Predicate.Equal, and the set-free case *)
 
 Definition setfree_term (t : term) : bool :=
   match t with TSet _ => false | TA _ => true end.
@@ -56,14 +65,59 @@ Proof.
   split; [exact H | apply atom_eqb_refl].
 Qed.
 
-Lemma set_equal_refl s : set_equal s s = true.
+Lemma set_contains_iff s a : set_contains s a = true <-> In a s.
 Proof.
-  unfold set_equal. rewrite Nat.eqb_refl. cbn [andb].
-  apply forallb_forall. intros x Hx. apply set_contains_in; exact Hx.
+  split; [|apply set_contains_in]. unfold set_contains. rewrite existsb_exists.
+  intros [x [Hx He]]. apply atom_eqb_true in He. subst x. exact Hx.
 Qed.
 
+(* Set.Equal, as repaired: same length and the same elements *)
+Lemma set_equal_iff s c :
+  set_equal s c = true <-> length c = length s /\ (forall x, In x s <-> In x c).
+Proof.
+  unfold set_equal. rewrite !andb_true_iff, Nat.eqb_eq, !forallb_forall. split.
+  - intros [[Hl H1] H2]. split; [exact Hl|]. intro x. split; intro Hx.
+    + apply set_contains_iff. apply H1. exact Hx.
+    + apply set_contains_iff. apply H2. exact Hx.
+  - intros [Hl H]. split; [split; [exact Hl|]|]; intros x Hx; apply set_contains_iff; apply H; exact Hx.
+Qed.
+
+Lemma set_equal_refl s : set_equal s s = true.
+Proof. apply set_equal_iff. split; [reflexivity | intro x; reflexivity]. Qed.
+
+Lemma set_equal_sym s c : set_equal s c = set_equal c s.
+Proof.
+  apply Bool.eq_true_iff_eq. rewrite !set_equal_iff. split; intros [Hl H];
+    (split; [symmetry; exact Hl | intro x; symmetry; apply H]).
+Qed.
+
+Lemma set_equal_trans a b c : set_equal a b = true -> set_equal b c = true -> set_equal a c = true.
+Proof.
+  rewrite !set_equal_iff. intros [Hl1 H1] [Hl2 H2]. split; [congruence|].
+  intro x. rewrite (H1 x). apply H2.
+Qed.
+
+Lemma atom_eqb_sym a b : atom_eqb a b = atom_eqb b a.
+Proof. apply Bool.eq_true_iff_eq. rewrite !atom_eqb_eq. split; intro H; symmetry; exact H. Qed.
+
+Lemma atom_eqb_trans a b c : atom_eqb a b = true -> atom_eqb b c = true -> atom_eqb a c = true.
+Proof. rewrite !atom_eqb_eq. congruence. Qed.
+
+(** [term_eqb] (Go's Term.Equal) is an equivalence relation *)
 Lemma term_eqb_refl t : term_eqb t t = true.
 Proof. destruct t as [a|s]; cbn [term_eqb]; [apply atom_eqb_refl | apply set_equal_refl]. Qed.
+
+Lemma term_eqb_sym a b : term_eqb a b = term_eqb b a.
+Proof.
+  destruct a as [x|x], b as [y|y]; cbn [term_eqb];
+    [apply atom_eqb_sym | reflexivity | reflexivity | apply set_equal_sym].
+Qed.
+
+Lemma term_eqb_trans a b c : term_eqb a b = true -> term_eqb b c = true -> term_eqb a c = true.
+Proof.
+  destruct a as [x|x], b as [y|y], c as [z|z]; cbn [term_eqb]; try discriminate;
+    [apply atom_eqb_trans | apply set_equal_trans].
+Qed.
 
 Lemma term_eqb_true_l a b : setfree_term a = true -> term_eqb a b = true -> a = b.
 Proof.
@@ -111,8 +165,38 @@ Proof.
   subst. reflexivity.
 Qed.
 
+Lemma terms_eqb_sym ts : forall us, list_eqb term_eqb ts us = list_eqb term_eqb us ts.
+Proof.
+  induction ts as [|t ts IH]; intros [|u us]; cbn [list_eqb]; try reflexivity.
+  rewrite term_eqb_sym, IH. reflexivity.
+Qed.
+
+Lemma terms_eqb_trans ts : forall us vs,
+  list_eqb term_eqb ts us = true -> list_eqb term_eqb us vs = true -> list_eqb term_eqb ts vs = true.
+Proof.
+  induction ts as [|t ts IH]; intros [|u us] [|v vs] H1 H2; cbn [list_eqb] in *;
+    try discriminate; [reflexivity|].
+  apply andb_true_iff in H1 as [H1 H1']. apply andb_true_iff in H2 as [H2 H2'].
+  rewrite (term_eqb_trans _ _ _ H1 H2), (IH _ _ H1' H2'). reflexivity.
+Qed.
+
+Lemma bytes_eqb_sym a b : bytes_eqb a b = bytes_eqb b a.
+Proof. apply Bool.eq_true_iff_eq. rewrite !bytes_eqb_eq. split; intro H; symmetry; exact H. Qed.
+
+(** [pred_eqb] (Predicate.Equal, the test of FactSet.Insert) is an equivalence relation *)
 Lemma pred_eqb_refl p : pred_eqb p p = true.
 Proof. unfold pred_eqb. rewrite bytes_eqb_refl, terms_eqb_refl. reflexivity. Qed.
+
+Lemma pred_eqb_sym p q : pred_eqb p q = pred_eqb q p.
+Proof. unfold pred_eqb. rewrite bytes_eqb_sym, terms_eqb_sym. reflexivity. Qed.
+
+Lemma pred_eqb_trans p q r : pred_eqb p q = true -> pred_eqb q r = true -> pred_eqb p r = true.
+Proof.
+  unfold pred_eqb. intros H1 H2.
+  apply andb_true_iff in H1 as [H1 H1']. apply andb_true_iff in H2 as [H2 H2'].
+  apply bytes_eqb_eq in H1. apply bytes_eqb_eq in H2.
+  rewrite H1, H2, bytes_eqb_refl, (terms_eqb_trans _ _ _ H1' H2'). reflexivity.
+Qed.
 
 Lemma pred_eqb_true_l p q : setfree_pred p = true -> pred_eqb p q = true -> p = q.
 Proof.
@@ -134,11 +218,36 @@ Proof.
   intro Hs. split; [apply pred_eqb_true_l; exact Hs | intros ->; apply pred_eqb_refl].
 Qed.
 
-(* the restriction is necessary: Set.Equal is not symmetric, hence not equality *)
-Example term_eqb_sets_not_symmetric :
-  term_eqb (TSet [AInt 1; AInt 1]) (TSet [AInt 1; AInt 2]) = true /\
-  term_eqb (TSet [AInt 1; AInt 2]) (TSet [AInt 1; AInt 1]) = false.
-Proof. split; vm_compute; reflexivity. Qed.
+Theorem Equal_is_equivalence :
+  (forall t, term_eqb t t = true) /\
+  (forall a b, term_eqb a b = term_eqb b a) /\
+  (forall a b c, term_eqb a b = true -> term_eqb b c = true -> term_eqb a c = true) /\
+  (forall p, pred_eqb p p = true) /\
+  (forall p q, pred_eqb p q = pred_eqb q p) /\
+  (forall p q r, pred_eqb p q = true -> pred_eqb q r = true -> pred_eqb p r = true).
+Proof.
+  exact (conj term_eqb_refl (conj term_eqb_sym (conj term_eqb_trans
+          (conj pred_eqb_refl (conj pred_eqb_sym pred_eqb_trans))))).
+Qed.
+
+(* repeated elements: [1,1] and [1,2] differ, in both directions; [1,2] and
+   [2,1] are Equal; [1,1] and [1] differ (by their length) — two different
+   values, consistently *)
+Example term_eqb_sets_repeats :
+  term_eqb (TSet [AInt 1; AInt 1]) (TSet [AInt 1; AInt 2]) = false /\
+  term_eqb (TSet [AInt 1; AInt 2]) (TSet [AInt 1; AInt 1]) = false /\
+  term_eqb (TSet [AInt 1; AInt 2]) (TSet [AInt 2; AInt 1]) = true /\
+  term_eqb (TSet [AInt 2; AInt 1]) (TSet [AInt 1; AInt 2]) = true /\
+  term_eqb (TSet [AInt 1; AInt 1]) (TSet [AInt 1]) = false /\
+  term_eqb (TSet [AInt 1]) (TSet [AInt 1; AInt 1]) = false.
+Proof. vm_compute. repeat split; reflexivity. Qed.
+
+(* Equal sets need not be the same list: on terms with sets [term_eqb] is an
+   equivalence that is coarser than equality *)
+Example term_eqb_sets_not_eq :
+  term_eqb (TSet [AInt 1; AInt 2]) (TSet [AInt 2; AInt 1]) = true /\
+  TSet [AInt 1; AInt 2] <> TSet [AInt 2; AInt 1].
+Proof. split; [vm_compute; reflexivity | discriminate]. Qed.
 
 (* ------------------------------------------------------------------ *)
 (** * fact_in / insert_fact / insert_all *)
@@ -349,6 +458,328 @@ Proof.
 Qed.
 
 (* ------------------------------------------------------------------ *)
+(** * Facts modulo Predicate.Equal
+
+    [fact_eqv] is the equivalence [insert_fact] works with; membership, absence
+    of duplicates, "same facts" and "permutation" modulo it are the standard
+    [InA], [NoDupA], [equivlistA], [PermutationA] of the library. *)
+
+Definition fact_eqv (f g : pred) : Prop := pred_eqb f g = true.
+
+#[global] Instance fact_eqv_Equivalence : Equivalence fact_eqv.
+Proof.
+  split.
+  - intro f. apply pred_eqb_refl.
+  - intros f g H. unfold fact_eqv. rewrite pred_eqb_sym. exact H.
+  - intros f g h. apply pred_eqb_trans.
+Qed.
+
+Lemma fact_in_iff f fs : fact_in f fs = true <-> exists g, In g fs /\ pred_eqb g f = true.
+Proof. unfold fact_in. apply existsb_exists. Qed.
+
+Lemma InA_fact_in f fs : InA fact_eqv f fs <-> fact_in f fs = true.
+Proof.
+  rewrite InA_alt, fact_in_iff. unfold fact_eqv. split; intros [g [H1 H2]]; exists g.
+  - split; [exact H2 | rewrite pred_eqb_sym; exact H1].
+  - split; [rewrite pred_eqb_sym; exact H2 | exact H1].
+Qed.
+
+Lemma In_InA_fact f fs : In f fs -> InA fact_eqv f fs.
+Proof. intro H. apply InA_fact_in. apply In_fact_in. exact H. Qed.
+
+Lemma fact_in_eqv f g fs : pred_eqb f g = true -> fact_in f fs = fact_in g fs.
+Proof.
+  intro H. apply Bool.eq_true_iff_eq. rewrite <- !InA_fact_in.
+  split; apply InA_eqA; try exact fact_eqv_Equivalence.
+  - exact H.
+  - unfold fact_eqv. rewrite pred_eqb_sym. exact H.
+Qed.
+
+Lemma fact_in_trans f fs gs :
+  fact_in f fs = true -> (forall x, In x fs -> fact_in x gs = true) -> fact_in f gs = true.
+Proof.
+  intros H Hall. apply fact_in_iff in H as [x [Hx He]].
+  rewrite <- (fact_in_eqv x f gs He). apply Hall. exact Hx.
+Qed.
+
+Lemma insert_fact_InA fs f g :
+  InA fact_eqv g (insert_fact fs f) <-> InA fact_eqv g fs \/ fact_eqv g f.
+Proof.
+  unfold insert_fact. destruct (fact_in f fs) eqn:H.
+  - split; [intro Hg; left; exact Hg|]. intros [Hg|Hg]; [exact Hg|].
+    apply InA_fact_in. rewrite (fact_in_eqv g f fs Hg). exact H.
+  - rewrite InA_app_iff. split; (intros [Hg|Hg]; [left; exact Hg | right]).
+    + inversion Hg as [x l He|x l Hn]; subst; [exact He | inversion Hn].
+    + constructor. exact Hg.
+Qed.
+
+Lemma insert_all_InA nf : forall fs g,
+  InA fact_eqv g (insert_all fs nf) <-> InA fact_eqv g fs \/ InA fact_eqv g nf.
+Proof.
+  induction nf as [|f nf IH]; intros fs g.
+  - rewrite insert_all_nil. split; [intro H; left; exact H|]. intros [H|H]; [exact H | inversion H].
+  - rewrite insert_all_cons, IH, insert_fact_InA, InA_cons. tauto.
+Qed.
+
+Lemma insert_fact_NoDupA fs f : NoDupA fact_eqv fs -> NoDupA fact_eqv (insert_fact fs f).
+Proof.
+  unfold insert_fact. destruct (fact_in f fs) eqn:H; intro Hn; [exact Hn|].
+  apply NoDupA_app; [exact fact_eqv_Equivalence | exact Hn | apply NoDupA_singleton |].
+  intros x Hx Hf. inversion Hf as [y l He|y l Hnil]; subst; [|inversion Hnil].
+  apply InA_fact_in in Hx. rewrite (fact_in_eqv x f fs He) in Hx. congruence.
+Qed.
+
+Lemma insert_all_NoDupA nf : forall fs, NoDupA fact_eqv fs -> NoDupA fact_eqv (insert_all fs nf).
+Proof.
+  induction nf as [|f nf IH]; intros fs H; [exact H|].
+  rewrite insert_all_cons. apply IH. apply insert_fact_NoDupA. exact H.
+Qed.
+
+(* a list loaded through [insert_fact] has no two Equal facts *)
+Lemma insert_all_nil_NoDupA l : NoDupA fact_eqv (insert_all [] l).
+Proof. apply insert_all_NoDupA. constructor. Qed.
+
+Lemma NoDupA_fact_NoDup fs : NoDupA fact_eqv fs -> NoDup fs.
+Proof.
+  induction 1 as [|f fs Hf Hn IH]; constructor; [|exact IH].
+  intro Hin. apply Hf. apply In_InA_fact. exact Hin.
+Qed.
+
+(* ------------------------------------------------------------------ *)
+(** * Interchangeable values
+
+    Every step of the evaluation respects Term.Equal: matching, variable
+    binding, head instantiation, and — since Set.Intersect and Set.Union return
+    each element once — every operator of the expression language.  The
+    relation is spelled out structurally ([trel]: equal atoms, Equal sets) so
+    that the congruence proofs can follow the shape of the values; [trel_iff]
+    and [prel_iff] say that it is Term.Equal / Predicate.Equal. *)
+
+(** ** The relation between interchangeable values *)
+
+Definition srel (a b : list atom) : Prop := set_equal a b = true.
+
+Definition trel (a b : term) : Prop :=
+  match a, b with
+  | TA x, TA y => x = y
+  | TSet x, TSet y => srel x y
+  | _, _ => False
+  end.
+
+Definition prel (f g : pred) : Prop :=
+  p_name f = p_name g /\ Forall2 trel (p_terms f) (p_terms g).
+
+Lemma Permutation_set_equal a b : Permutation a b -> set_equal a b = true.
+Proof.
+  intro H. apply set_equal_iff. split; [symmetry; apply Permutation_length; exact H|].
+  intro x. split; intro Hx.
+  - eapply Permutation_in; eassumption.
+  - eapply Permutation_in; [apply Permutation_sym|]; eassumption.
+Qed.
+
+Lemma srel_equal a b : srel a b -> set_equal a b = true.
+Proof. intro H. exact H. Qed.
+
+Lemma srel_refl a : srel a a.
+Proof. apply set_equal_refl. Qed.
+
+Lemma srel_sym a b : srel a b -> srel b a.
+Proof. unfold srel. rewrite set_equal_sym. intro H. exact H. Qed.
+
+Lemma srel_trans a b c : srel a b -> srel b c -> srel a c.
+Proof. apply set_equal_trans. Qed.
+
+Lemma srel_length a b : srel a b -> length a = length b.
+Proof. intro H. apply srel_equal in H. apply set_equal_iff in H as [H _]. symmetry. exact H. Qed.
+
+Lemma srel_contains a b x : srel a b -> set_contains a x = set_contains b x.
+Proof.
+  intro H. apply srel_equal in H. apply set_equal_iff in H as [_ H].
+  apply Bool.eq_true_iff_eq. rewrite !set_contains_iff. apply H.
+Qed.
+
+Lemma trel_refl t : trel t t.
+Proof. destruct t as [a|s]; cbn [trel]; [reflexivity | apply srel_refl]. Qed.
+
+Lemma trel_sym a b : trel a b -> trel b a.
+Proof.
+  destruct a as [x|x], b as [y|y]; cbn [trel]; try (intro HF; contradiction);
+    [intro H; symmetry; exact H | apply srel_sym].
+Qed.
+
+Lemma trel_trans a b c : trel a b -> trel b c -> trel a c.
+Proof.
+  destruct a as [x|x], b as [y|y], c as [z|z]; cbn [trel]; try (intro HF; contradiction); try (intros _ HF; contradiction);
+    [congruence | apply srel_trans].
+Qed.
+
+Lemma trel_eqb a b : trel a b -> term_eqb a b = true.
+Proof.
+  destruct a as [x|x], b as [y|y]; cbn [trel term_eqb]; try (intro HF; contradiction).
+  - intros ->. apply atom_eqb_refl.
+  - apply srel_equal.
+Qed.
+
+Lemma trels_refl ts : Forall2 trel ts ts.
+Proof. induction ts as [|t ts IH]; constructor; [apply trel_refl | exact IH]. Qed.
+
+Lemma trels_sym ts us : Forall2 trel ts us -> Forall2 trel us ts.
+Proof. induction 1 as [|t u ts us H _ IH]; constructor; [apply trel_sym; exact H | exact IH]. Qed.
+
+Lemma trels_trans ts : forall us vs,
+  Forall2 trel ts us -> Forall2 trel us vs -> Forall2 trel ts vs.
+Proof.
+  induction ts as [|t ts IH]; intros us vs H1 H2.
+  - inversion H1; subst. inversion H2; subst. constructor.
+  - inversion H1 as [|t0 u ts0 us0 Ht Hts]; subst. inversion H2 as [|u0 v us1 vs0 Hu Hus]; subst.
+    constructor; [eapply trel_trans; eassumption | eapply IH; eassumption].
+Qed.
+
+Lemma trels_eqb ts us : Forall2 trel ts us -> list_eqb term_eqb ts us = true.
+Proof.
+  induction 1 as [|t u ts us H _ IH]; cbn [list_eqb]; [reflexivity|].
+  rewrite (trel_eqb _ _ H), IH. reflexivity.
+Qed.
+
+Lemma prel_refl f : prel f f.
+Proof. split; [reflexivity | apply trels_refl]. Qed.
+
+Lemma prel_sym f g : prel f g -> prel g f.
+Proof. intros [H1 H2]. split; [symmetry; exact H1 | apply trels_sym; exact H2]. Qed.
+
+Lemma prel_trans f g h : prel f g -> prel g h -> prel f h.
+Proof. intros [H1 H2] [H3 H4]. split; [congruence | eapply trels_trans; eassumption]. Qed.
+
+Lemma prel_eqb f g : prel f g -> pred_eqb f g = true.
+Proof.
+  intros [H1 H2]. unfold pred_eqb. rewrite H1, bytes_eqb_refl, (trels_eqb _ _ H2). reflexivity.
+Qed.
+
+Lemma prels_sym c c' : Forall2 prel c c' -> Forall2 prel c' c.
+Proof. induction 1 as [|f g c c' H _ IH]; constructor; [apply prel_sym; exact H | exact IH]. Qed.
+
+Lemma trel_iff a b : trel a b <-> term_eqb a b = true.
+Proof.
+  split; [apply trel_eqb|].
+  destruct a as [x|x], b as [y|y]; cbn [term_eqb trel]; try discriminate.
+  - apply atom_eqb_true.
+  - intro H. exact H.
+Qed.
+
+Lemma trels_iff ts : forall us, Forall2 trel ts us <-> list_eqb term_eqb ts us = true.
+Proof.
+  intro us. split; [apply trels_eqb|]. revert us.
+  induction ts as [|t ts IH]; intros [|u us] H; cbn [list_eqb] in H; try discriminate H; [constructor|].
+  apply andb_true_iff in H as [H H']. constructor; [apply trel_iff; exact H | apply IH; exact H'].
+Qed.
+
+Lemma prel_iff f g : prel f g <-> pred_eqb f g = true.
+Proof.
+  split; [apply prel_eqb|]. unfold pred_eqb. intro H. apply andb_true_iff in H as [Hn H].
+  apply bytes_eqb_eq in Hn. split; [exact Hn | apply trels_iff; exact H].
+Qed.
+
+(** ** Matching, binding and head instantiation respect the relation *)
+
+Lemma term_eqb_cong a a' b b' :
+  term_eqb a a' = true -> term_eqb b b' = true -> term_eqb a b = term_eqb a' b'.
+Proof.
+  intros Ha Hb. apply Bool.eq_true_iff_eq. split; intro H.
+  - rewrite term_eqb_sym in Ha. eapply term_eqb_trans; [exact Ha|]. eapply term_eqb_trans; eassumption.
+  - rewrite term_eqb_sym in Hb. eapply term_eqb_trans; [exact Ha|]. eapply term_eqb_trans; eassumption.
+Qed.
+
+Lemma trel_is_var a b : trel a b -> is_var a = is_var b.
+Proof.
+  destruct a as [x|x], b as [y|y]; cbn [trel]; try (intro HF; contradiction); [intros ->|]; reflexivity.
+Qed.
+
+Lemma terms_match_rel ft ft' : Forall2 trel ft ft' ->
+  forall pt, terms_match ft pt = terms_match ft' pt.
+Proof.
+  induction 1 as [|x x' ft ft' Hx _ IH]; intros [|y pt]; cbn [terms_match]; try reflexivity.
+  rewrite (trel_is_var _ _ Hx), IH.
+  rewrite (term_eqb_cong x x' y y (trel_eqb _ _ Hx) (term_eqb_refl y)). reflexivity.
+Qed.
+
+Lemma pred_match_rel g g' p : prel g g' -> pred_match g p = pred_match g' p.
+Proof.
+  intros [Hn Ht]. unfold pred_match. rewrite Hn, (terms_match_rel _ _ Ht). reflexivity.
+Qed.
+
+Definition orel {A} (R : A -> A -> Prop) (x y : option A) : Prop :=
+  match x, y with Some a, Some b => R a b | None, None => True | _, _ => False end.
+
+Definition brel (b b' : bindings) : Prop :=
+  Forall2 (fun kv kv' => fst kv = fst kv' /\ trel (snd kv) (snd kv')) b b'.
+
+Lemma lookup_rel b b' k : brel b b' -> orel trel (lookup b k) (lookup b' k).
+Proof.
+  induction 1 as [|[k0 t0] [k1 t1] b b' [Hk Ht] _ IH]; cbn [lookup orel]; [exact I|].
+  cbn [fst snd] in Hk, Ht. subst k1. destruct (bytes_eqb k0 k); [exact Ht | exact IH].
+Qed.
+
+Lemma brel_snoc b b' k v v' : brel b b' -> trel v v' -> brel (b ++ [(k, v)]) (b' ++ [(k, v')]).
+Proof.
+  intros Hb Hv. apply Forall2_app; [exact Hb|]. constructor; [|constructor].
+  split; [reflexivity | exact Hv].
+Qed.
+
+Lemma bind_terms_rel pt : forall ft ft' b b',
+  Forall2 trel ft ft' -> brel b b' ->
+  orel brel (bind_terms pt ft b) (bind_terms pt ft' b').
+Proof.
+  induction pt as [|t pt IH]; intros ft ft' b b' Hft Hb.
+  - cbn [bind_terms orel]. exact Hb.
+  - destruct Hft as [|v v' ft ft' Hv Hft].
+    + destruct t as [[k|z|s|d|bs|bo]|l]; cbn [bind_terms orel]; exact Hb.
+    + destruct t as [[k|z|s|d|bs|bo]|l]; cbn [bind_terms]; try (apply IH; assumption).
+      pose proof (lookup_rel b b' k Hb) as Hl.
+      destruct (lookup b k) as [ex|], (lookup b' k) as [ex'|]; cbn [orel] in Hl; try contradiction.
+      * rewrite (term_eqb_cong v v' ex ex' (trel_eqb _ _ Hv) (trel_eqb _ _ Hl)).
+        destruct (term_eqb v' ex'); [apply IH; assumption | exact I].
+      * apply IH; [exact Hft | apply brel_snoc; assumption].
+Qed.
+
+Lemma bind_all_rel ps : forall c c' b b',
+  Forall2 prel c c' -> brel b b' ->
+  orel brel (bind_all ps c b) (bind_all ps c' b').
+Proof.
+  induction ps as [|p ps IH]; intros c c' b b' Hc Hb.
+  - cbn [bind_all orel]. exact Hb.
+  - destruct Hc as [|f f' c c' [_ Hf] Hc]; cbn [bind_all]; [exact Hb|].
+    pose proof (bind_terms_rel (p_terms p) _ _ b b' Hf Hb) as H1.
+    destruct (bind_terms (p_terms p) (p_terms f) b) as [b1|],
+             (bind_terms (p_terms p) (p_terms f') b') as [b1'|]; cbn [orel] in H1; try contradiction;
+      [apply IH; assumption | exact I].
+Qed.
+
+Lemma inst_terms_rel ts : forall b b',
+  brel b b' -> orel (Forall2 trel) (inst_terms ts b) (inst_terms ts b').
+Proof.
+  induction ts as [|t ts IH]; intros b b' Hb; [cbn [inst_terms orel]; constructor|].
+  specialize (IH b b' Hb).
+  assert (Hconst : forall u : term,
+    orel (Forall2 trel)
+      (match inst_terms ts b with Some r => Some (u :: r) | None => None end)
+      (match inst_terms ts b' with Some r => Some (u :: r) | None => None end)).
+  { intro u. destruct (inst_terms ts b) as [r|], (inst_terms ts b') as [r'|]; cbn [orel] in *;
+      try contradiction; [|exact I]. constructor; [apply trel_refl | exact IH]. }
+  destruct t as [[k|z|s|d|bs|bo]|l]; cbn [inst_terms]; try apply Hconst.
+  pose proof (lookup_rel b b' k Hb) as Hl.
+  destruct (lookup b k) as [v|], (lookup b' k) as [v'|]; cbn [orel] in Hl; try contradiction; [|exact I].
+  destruct (inst_terms ts b) as [r|], (inst_terms ts b') as [r'|]; cbn [orel] in *;
+    try contradiction; [|exact I]. constructor; assumption.
+Qed.
+
+Lemma inst_head_rel h b b' : brel b b' -> orel prel (inst_head h b) (inst_head h b').
+Proof.
+  intro Hb. unfold inst_head. pose proof (inst_terms_rel (p_terms h) b b' Hb) as H.
+  destruct (inst_terms (p_terms h) b) as [ts|], (inst_terms (p_terms h) b') as [ts'|];
+    cbn [orel] in *; try contradiction; [|exact I]. split; [reflexivity | exact H].
+Qed.
+
+(* ------------------------------------------------------------------ *)
 (** * The tuples enumerated by [combos] *)
 
 Lemma combos_in ps fs : forall c,
@@ -440,6 +871,234 @@ Proof.
   induction es as [|e es IH]; cbn [eval_exprs]; [exact I|].
   apply bind_good; [apply eval_good|].
   intros v. destruct (term_eqb v (TA (ABool true))); [exact IH | exact I].
+Qed.
+
+(* ------------------------------------------------------------------ *)
+(** * Expression evaluation respects the relation: every operator *)
+
+Definition resrel {A} (R : A -> A -> Prop) (x y : res A) : Prop :=
+  match x, y with
+  | Ok a, Ok b => R a b
+  | Err e, Err e' => e = e'
+  | Panic s, Panic s' => s = s'
+  | _, _ => False
+  end.
+
+Lemma resrel_refl {A} (R : A -> A -> Prop) (x : res A) : (forall a, R a a) -> resrel R x x.
+Proof. intro H. destruct x as [a|e|s]; cbn [resrel]; [apply H | reflexivity | reflexivity]. Qed.
+
+Lemma bind_rel {A B} (RA : A -> A -> Prop) (RB : B -> B -> Prop) x y (f g : A -> res B) :
+  resrel RA x y -> (forall a a', RA a a' -> resrel RB (f a) (g a')) ->
+  resrel RB (bind x f) (bind y g).
+Proof.
+  destruct x as [a|e|s], y as [a'|e'|s']; cbn [resrel bind]; intros H Hf;
+    first [contradiction | exact H | apply Hf; exact H].
+Qed.
+
+Lemma eval_unary_rel u v v' :
+  trel v v' -> resrel trel (eval_unary u v) (eval_unary u v').
+Proof.
+  destruct v as [a|s], v' as [a'|s']; cbn [trel]; try contradiction.
+  - intros ->. apply resrel_refl. apply trel_refl.
+  - intro H. destruct u; cbn [eval_unary resrel trel]; [reflexivity | exact H|].
+    rewrite (srel_length _ _ H). reflexivity.
+Qed.
+
+Lemma existsb_mem_ext (f : atom -> bool) s s' :
+  (forall x, In x s <-> In x s') -> existsb f s = existsb f s'.
+Proof.
+  intro H. apply Bool.eq_true_iff_eq. rewrite !existsb_exists.
+  split; intros [x [Hx Hf]]; exists x; (split; [apply H; exact Hx | exact Hf]).
+Qed.
+
+Lemma forallb_mem_ext (f : atom -> bool) s s' :
+  (forall x, In x s <-> In x s') -> forallb f s = forallb f s'.
+Proof.
+  intro H. apply Bool.eq_true_iff_eq. rewrite !forallb_forall.
+  split; intros Hf x Hx; apply Hf; apply H; exact Hx.
+Qed.
+
+Lemma srel_mem a b : srel a b -> forall x, In x a <-> In x b.
+Proof. intro H. apply srel_equal in H. apply set_equal_iff in H as [_ H]. exact H. Qed.
+
+(* [set_add]/[set_intersect]/[set_union]: membership and absence of repetition *)
+Lemma set_add_In acc a x : In x (set_add acc a) <-> In x acc \/ x = a.
+Proof.
+  unfold set_add. destruct (set_contains acc a) eqn:E.
+  - apply set_contains_iff in E. split; [intro H; left; exact H|].
+    intros [H|H]; [exact H | subst x; exact E].
+  - rewrite in_app_iff. cbn [In]. split; (intros [H|H]; [left; exact H | right]).
+    + destruct H as [H|[]]. symmetry. exact H.
+    + left. symmetry. exact H.
+Qed.
+
+Lemma set_add_NoDup acc a : NoDup acc -> NoDup (set_add acc a).
+Proof.
+  intro Hn. unfold set_add. destruct (set_contains acc a) eqn:E; [exact Hn|].
+  apply (Permutation_NoDup (Permutation_cons_append acc a)).
+  constructor; [|exact Hn]. intro Hin. apply set_contains_iff in Hin. congruence.
+Qed.
+
+Lemma fold_set_add_In l : forall acc x, In x (fold_left set_add l acc) <-> In x acc \/ In x l.
+Proof.
+  induction l as [|a l IH]; intros acc x; cbn [fold_left In]; [tauto|].
+  rewrite IH, set_add_In. split; [intros [[H|H]|H] | intros [H|[H|H]]]; auto.
+Qed.
+
+Lemma fold_set_add_NoDup l : forall acc, NoDup acc -> NoDup (fold_left set_add l acc).
+Proof.
+  induction l as [|a l IH]; intros acc Hn; cbn [fold_left]; [exact Hn|].
+  apply IH. apply set_add_NoDup. exact Hn.
+Qed.
+
+Lemma fold_inter_In t l : forall acc x,
+  In x (fold_left (fun acc a => if set_contains t a then set_add acc a else acc) l acc) <->
+  In x acc \/ (In x l /\ In x t).
+Proof.
+  induction l as [|a l IH]; intros acc x; cbn [fold_left In]; [tauto|].
+  rewrite IH. destruct (set_contains t a) eqn:E.
+  - apply set_contains_iff in E. rewrite set_add_In. split.
+    + intros [[H|H]|[H1 H2]]; [left; exact H | subst x; right; auto | right; auto].
+    + intros [H|[[H|H] H2]]; [left; left; exact H | left; right; symmetry; exact H | right; auto].
+  - split.
+    + intros [H|[H1 H2]]; [left; exact H | right; auto].
+    + intros [H|[[H|H] H2]]; [left; exact H | | right; auto].
+      subst x. apply set_contains_iff in H2. congruence.
+Qed.
+
+Lemma fold_inter_NoDup t l : forall acc, NoDup acc ->
+  NoDup (fold_left (fun acc a => if set_contains t a then set_add acc a else acc) l acc).
+Proof.
+  induction l as [|a l IH]; intros acc Hn; cbn [fold_left]; [exact Hn|].
+  apply IH. destruct (set_contains t a); [apply set_add_NoDup|]; exact Hn.
+Qed.
+
+Lemma set_intersect_In s t x : In x (set_intersect s t) <-> In x s /\ In x t.
+Proof. unfold set_intersect. rewrite fold_inter_In. cbn [In]. tauto. Qed.
+
+Lemma set_union_In s t x : In x (set_union s t) <-> In x s \/ In x t.
+Proof. unfold set_union. rewrite !fold_set_add_In. cbn [In]. tauto. Qed.
+
+Lemma set_intersect_NoDup s t : NoDup (set_intersect s t).
+Proof. unfold set_intersect. apply fold_inter_NoDup. constructor. Qed.
+
+Lemma set_union_NoDup s t : NoDup (set_union s t).
+Proof. unfold set_union. apply fold_set_add_NoDup. apply fold_set_add_NoDup. constructor. Qed.
+
+(* two lists without repetition and with the same elements are Equal sets *)
+Lemma NoDup_mem_set_equal a b :
+  NoDup a -> NoDup b -> (forall x, In x a <-> In x b) -> set_equal a b = true.
+Proof.
+  intros Ha Hb H. apply set_equal_iff. split; [|exact H].
+  symmetry. apply Permutation_length. apply NoDup_Permutation; assumption.
+Qed.
+
+(** Set.Intersect and Set.Union respect Set.Equal: Equal operands (repeated
+    elements or not) give Equal results *)
+Lemma set_intersect_equal a a' b b' :
+  set_equal a a' = true -> set_equal b b' = true ->
+  set_equal (set_intersect a b) (set_intersect a' b') = true.
+Proof.
+  intros Ha Hb. apply set_equal_iff in Ha as [_ Ha]. apply set_equal_iff in Hb as [_ Hb].
+  apply NoDup_mem_set_equal; try apply set_intersect_NoDup.
+  intro x. rewrite !set_intersect_In, (Ha x), (Hb x). reflexivity.
+Qed.
+
+Lemma set_union_equal a a' b b' :
+  set_equal a a' = true -> set_equal b b' = true ->
+  set_equal (set_union a b) (set_union a' b') = true.
+Proof.
+  intros Ha Hb. apply set_equal_iff in Ha as [_ Ha]. apply set_equal_iff in Hb as [_ Hb].
+  apply NoDup_mem_set_equal; try apply set_union_NoDup.
+  intro x. rewrite !set_union_In, (Ha x), (Hb x). reflexivity.
+Qed.
+
+Lemma eval_binary_rel o l l' r r' :
+  trel l l' -> trel r r' ->
+  resrel trel (eval_binary rx o l r) (eval_binary rx o l' r').
+Proof.
+  intros Hl Hr.
+  destruct l as [la|ls], l' as [la'|ls']; cbn [trel] in Hl; try contradiction;
+    destruct r as [ra|rs], r' as [ra'|rs']; cbn [trel] in Hr; try contradiction.
+  - subst la' ra'. apply resrel_refl. apply trel_refl.
+  - subst la'.
+    destruct o; destruct la as [k|z|s|d|bs|bo];
+      cbn [eval_binary cmp_op str_op int_op term_type atom_type ttype_eqb negb resrel];
+      reflexivity.
+  - subst ra'.
+    destruct o; destruct ra as [k|z|s|d|bs|bo];
+      cbn [eval_binary cmp_op str_op int_op term_type atom_type ttype_eqb negb resrel trel];
+      try reflexivity;
+      f_equal; apply existsb_mem_ext; apply (srel_mem); exact Hl.
+  - destruct o;
+      cbn [eval_binary cmp_op str_op int_op term_type atom_type ttype_eqb negb resrel trel term_eqb];
+      try reflexivity.
+    + f_equal.
+      exact (term_eqb_cong (TSet ls) (TSet ls') (TSet rs) (TSet rs')
+               (srel_equal _ _ Hl) (srel_equal _ _ Hr)).
+    + f_equal. rewrite (forallb_mem_ext _ rs rs' (srel_mem _ _ Hr)).
+      apply Bool.eq_true_iff_eq. rewrite !forallb_forall.
+      split; intros H e He; specialize (H e He);
+        rewrite (existsb_mem_ext (fun x => atom_eqb x e) ls ls' (srel_mem _ _ Hl)) in *; exact H.
+    + apply set_intersect_equal; assumption.
+    + apply set_union_equal; assumption.
+Qed.
+
+Definition strel : list term -> list term -> Prop := Forall2 trel.
+
+Lemma Forall2_len {A B} (R : A -> B -> Prop) l l' : Forall2 R l l' -> length l = length l'.
+Proof. induction 1 as [|x y l l' _ _ IH]; cbn [length]; congruence. Qed.
+
+Lemma push_rel st st' v v' :
+  strel st st' -> trel v v' -> resrel strel (push st v) (push st' v').
+Proof.
+  intros Hs Hv. unfold push. rewrite <- (Forall2_len _ _ _ Hs).
+  destruct (max_stack <=? length st); cbn [resrel]; [reflexivity|]. constructor; assumption.
+Qed.
+
+Lemma step_rel b b' st st' o :
+  brel b b' -> strel st st' ->
+  resrel strel (step rx b st o) (step rx b' st' o).
+Proof.
+  intros Hb Hs. destruct o as [t|u|o].
+  - destruct t as [[k|z|s|d|bs|bo]|l]; cbn [step];
+      try (apply push_rel; [exact Hs | apply trel_refl]).
+    pose proof (lookup_rel b b' k Hb) as Hl.
+    destruct (lookup b k) as [v|], (lookup b' k) as [v'|]; cbn [orel] in Hl; try contradiction;
+      [apply push_rel; assumption | reflexivity].
+  - cbn [step]. destruct Hs as [|v v' st st' Hv Hs]; [reflexivity|].
+    eapply (bind_rel trel); [apply (eval_unary_rel); exact Hv|].
+    intros a a' Ha. apply push_rel; assumption.
+  - cbn [step]. destruct Hs as [|r r' st st' Hr Hs]; [reflexivity|].
+    destruct Hs as [|l l' st st' Hl Hs]; [reflexivity|].
+    eapply (bind_rel trel); [apply (eval_binary_rel); assumption|].
+    intros a a' Ha. apply push_rel; assumption.
+Qed.
+
+Lemma run_ops_rel b b' e : brel b b' ->
+  forall st st', strel st st' -> resrel strel (run_ops rx b st e) (run_ops rx b' st' e).
+Proof.
+  intros Hb. induction e as [|o e IH]; intros st st' Hs; cbn [run_ops]; [exact Hs|].
+  eapply bind_rel; [apply step_rel; eassumption|]. intros a a' Ha. apply IH; assumption.
+Qed.
+
+Lemma eval_rel b b' e : brel b b' ->
+  resrel trel (eval rx e b) (eval rx e b').
+Proof.
+  intros Hb. unfold eval. eapply bind_rel; [apply run_ops_rel; try eassumption; constructor|].
+  intros st st' Hs. destruct Hs as [|v v' st st' Hv Hs]; [reflexivity|].
+  destruct Hs as [|w w' st st' Hw Hs]; [exact Hv | reflexivity].
+Qed.
+
+Lemma eval_exprs_rel b b' es : brel b b' ->
+  eval_exprs rx es b = eval_exprs rx es b'.
+Proof.
+  intros Hb. induction es as [|e es IH]; cbn [eval_exprs]; [reflexivity|].
+  pose proof (eval_rel b b' e Hb) as H.
+  destruct (eval rx e b) as [v|er|s], (eval rx e b') as [v'|er'|s']; cbn [resrel] in H;
+    try contradiction; cbn [bind]; [|congruence|congruence].
+  rewrite (term_eqb_cong v v' (TA (ABool true)) (TA (ABool true)) (trel_eqb _ _ H) eq_refl).
+  destruct (term_eqb v' (TA (ABool true))); [exact IH | reflexivity].
 Qed.
 
 (* ------------------------------------------------------------------ *)
@@ -898,8 +1557,305 @@ Proof.
   apply run_ok_round in H as [nf [Ha _]]. eapply apply_rules_ok_each; eassumption.
 Qed.
 
-(* closure: every head instance over the final world is already in it *)
+(* closure: every head instance over the final world has an Equal fact in it
+   (no hypothesis: [pred_eqb] is transitive) *)
 Lemma run_ok_closed : forall lim rules facts fs,
+  run rx lim rules facts = (fs, None) ->
+  forall r c b f, In r rules -> In c (combos (r_body r) fs) -> fires r c b f ->
+  fact_in f fs = true.
+Proof.
+  intros lim rules facts fs H r c b f Hr Hc Hfi.
+  apply run_ok_round in H as [nf [Ha [_ [Hall _]]]].
+  assert (Ht : tuple_out r c = TEmit f) by (apply tuple_out_emit; exists b; exact Hfi).
+  pose proof (apply_rules_complete _ _ _ _ _ _ _ Ha Hr Hc Ht) as Hin.
+  eapply fact_in_trans; [exact Hin | exact Hall].
+Qed.
+
+Theorem run_ok_is_fixpoint : forall lim rules facts fs,
+  run rx lim rules facts = (fs, None) ->
+  forall r, In r rules -> forall nf, apply_rule rx r fs [] = (nf, None) ->
+  forall f, In f nf -> fact_in f fs = true.
+Proof.
+  intros lim rules facts fs H r Hr nf Hap f Hf.
+  unfold apply_rule in Hap.
+  destruct (consume_in _ _ _ _ _ Hap f Hf) as [[]|[c [b [Hc Hfi]]]].
+  eapply run_ok_closed; eassumption.
+Qed.
+
+(** * 3. Completeness, modulo Predicate.Equal *)
+
+(* one candidate tuple, on related tuples *)
+Inductive toutrel : tout -> tout -> Prop :=
+| tr_skip : toutrel TSkip TSkip
+| tr_emit f g : prel f g -> toutrel (TEmit f) (TEmit g)
+| tr_stop e : toutrel (TStop e) (TStop e).
+
+Lemma tuple_out_rel r c c' :
+  Forall2 prel c c' -> toutrel (tuple_out r c) (tuple_out r c').
+Proof.
+  intros Hc. unfold tuple_out.
+  assert (H0 : brel [] []) by constructor.
+  pose proof (bind_all_rel (r_body r) c c' [] [] Hc H0) as Hb.
+  destruct (bind_all (r_body r) c []) as [b|], (bind_all (r_body r) c' []) as [b'|];
+    cbn [orel] in Hb; try contradiction; [|constructor].
+  rewrite (eval_exprs_rel b b' (r_exprs r) Hb).
+  destruct (eval_exprs rx (r_exprs r) b') as [[|]|e|s]; try constructor.
+  pose proof (inst_head_rel (r_head r) b b' Hb) as Hh.
+  destruct (inst_head (r_head r) b) as [f|], (inst_head (r_head r) b') as [f'|];
+    cbn [orel] in Hh; try contradiction; constructor. exact Hh.
+Qed.
+
+Lemma matches_rel ps : forall c c',
+  Forall2 prel c c' ->
+  Forall2 (fun g p => pred_match g p = true) c ps -> Forall2 (fun g p => pred_match g p = true) c' ps.
+Proof.
+  induction ps as [|p ps IH]; intros c c' Hc Hm.
+  - inversion Hm; subst. inversion Hc; subst. constructor.
+  - inversion Hm as [|g p0 c0 ps0 Hg Hm']; subst. inversion Hc as [|g0 g' c1 c1' Hgg Hc']; subst.
+    constructor; [rewrite <- (pred_match_rel g g' p Hgg); exact Hg | eapply IH; eassumption].
+Qed.
+
+(* a rule that fires on a tuple fires on every tuple of Equal facts, with an Equal head *)
+Lemma fires_sim r c c' b f :
+  Forall2 prel c c' -> fires r c b f ->
+  exists b' f', fires r c' b' f' /\ prel f f'.
+Proof.
+  intros Hc Hfi.
+  assert (Ht : tuple_out r c = TEmit f) by (apply tuple_out_emit; exists b; exact Hfi).
+  pose proof (tuple_out_rel r c c' Hc) as Hr. rewrite Ht in Hr.
+  inversion Hr as [|f0 f' Hff Hf0 Hout|]; subst.
+  symmetry in Hout. apply tuple_out_emit in Hout as [b' Hb']. exists b', f'. split; assumption.
+Qed.
+
+(* every [W]-fact has an Equal [W']-fact *)
+Definition wsim (W W' : pred -> Prop) : Prop :=
+  forall f, W f -> exists g, W' g /\ prel f g.
+
+Lemma tuple_sim (W W' : pred -> Prop) c :
+  wsim W W' -> Forall W c -> exists c', Forall W' c' /\ Forall2 prel c c'.
+Proof.
+  intros Hs Hc. induction Hc as [|f c Hf _ [c' [Hc' Hcc]]].
+  - exists []. split; constructor.
+  - destruct (Hs f Hf) as [g [Hg Hfg]]. exists (g :: c'). split; constructor; assumption.
+Qed.
+
+Lemma wsim_trans (W1 W2 W3 : pred -> Prop) : wsim W1 W2 -> wsim W2 W3 -> wsim W1 W3.
+Proof.
+  intros H12 H23 f Hf. destruct (H12 f Hf) as [g [Hg Hfg]]. destruct (H23 g Hg) as [h [Hh Hgh]].
+  exists h. split; [exact Hh | eapply prel_trans; eassumption].
+Qed.
+
+Lemma wsim_incl (W W' : pred -> Prop) : (forall f, W f -> W' f) -> wsim W W'.
+Proof. intros H f Hf. exists f. split; [apply H; exact Hf | apply prel_refl]. Qed.
+
+Lemma wsim_of_InA fs fs' :
+  (forall f, In f fs -> InA fact_eqv f fs') -> wsim (fun g => In g fs) (fun g => In g fs').
+Proof.
+  intros H f Hin. apply H in Hin. apply InA_alt in Hin as [g [Hfg Hg]].
+  exists g. split; [exact Hg | apply prel_iff; exact Hfg].
+Qed.
+
+Lemma wsim_InA (W : pred -> Prop) fs f : wsim W (fun g => In g fs) -> W f -> InA fact_eqv f fs.
+Proof.
+  intros H Hf. destruct (H f Hf) as [g [Hg Hfg]].
+  apply InA_alt. exists g. split; [exact (prel_eqb _ _ Hfg) | exact Hg].
+Qed.
+
+(* the simulation lemma: a set of facts that covers the base facts and is
+   closed under the rules, both up to Equal, covers the least model *)
+Lemma Derivable_sim rules facts (W : pred -> Prop) :
+  wsim (fun f => In f facts) W ->
+  (forall r c b f, In r rules -> Forall W c ->
+     Forall2 (fun g p => pred_match g p = true) c (r_body r) -> fires r c b f ->
+     exists g, W g /\ prel f g) ->
+  wsim (Derivable rules facts) W.
+Proof.
+  intros Hbase Hclosed. unfold wsim. apply Derivable_strong_ind; [exact Hbase|].
+  intros r c b f Hr _ Hall Hm Hb He Hh.
+  destruct (tuple_sim (fun f => exists g, W g /\ prel f g) W c) as [c' [Hc' Hcc]].
+  - intros x [g [Hg Hxg]]. exists g. split; assumption.
+  - exact Hall.
+  - destruct (fires_sim r c c' b f Hcc (conj Hb (conj He Hh))) as [b' [f' [Hfi Hff]]].
+    destruct (Hclosed r c' b' f' Hr Hc' (matches_rel _ _ _ Hcc Hm) Hfi) as [g [Hg Hfg]].
+    exists g. split; [exact Hg | eapply prel_trans; eassumption].
+Qed.
+
+(* the form the other proofs use: an Equal fact of the world, as a relation *)
+Theorem run_complete_rel : forall lim rules facts fs,
+  run rx lim rules facts = (fs, None) ->
+  wsim (Derivable rules facts) (fun g => In g fs).
+Proof.
+  intros lim rules facts fs H. apply Derivable_sim.
+  - apply wsim_incl. intros f Hin. eapply run_extends; eassumption.
+  - intros r c b f Hin Hall Hm Hfi.
+    assert (Hc : In c (combos (r_body r) fs)) by (apply combos_in; split; assumption).
+    pose proof (run_ok_closed _ _ _ _ H r c b f Hin Hc Hfi) as Hfa.
+    apply fact_in_iff in Hfa as [g [Hg He]]. exists g. split; [exact Hg|].
+    apply prel_iff. rewrite pred_eqb_sym. exact He.
+Qed.
+
+(** every derivable fact has an Equal fact in the world: for every program *)
+Theorem run_complete : forall lim rules facts fs,
+  run rx lim rules facts = (fs, None) ->
+  forall f, Derivable rules facts f -> InA fact_eqv f fs.
+Proof.
+  intros lim rules facts fs H f Hd.
+  exact (wsim_InA _ _ _ (run_complete_rel _ _ _ _ H) Hd).
+Qed.
+
+(* the world never holds two Equal facts if it did not at the start *)
+Theorem run_nodupA : forall lim rules facts fs e,
+  NoDupA fact_eqv facts -> run rx lim rules facts = (fs, e) -> NoDupA fact_eqv fs.
+Proof.
+  intros lim rules facts fs e Hn H. unfold run in H.
+  eapply (run_loop_inv (NoDupA fact_eqv)); [ | exact Hn | exact H].
+  intros cur nf Hcur _. apply insert_all_NoDupA; exact Hcur.
+Qed.
+
+(** * 5. C05: the result is exactly the least model, one fact per class of Equal facts *)
+
+Theorem C05_least_model : forall lim rules facts fs,
+  NoDupA fact_eqv facts ->
+  run rx lim rules facts = (fs, None) ->
+  (forall f, In f fs -> Derivable rules facts f) /\
+  (forall f, Derivable rules facts f -> InA fact_eqv f fs) /\
+  NoDupA fact_eqv fs.
+Proof.
+  intros lim rules facts fs Hn H. split; [|split].
+  - eapply run_sound; exact H.
+  - eapply run_complete; eassumption.
+  - eapply run_nodupA; eassumption.
+Qed.
+
+(** * 6. Queries *)
+
+(* the left-to-right direction holds for every rule, every world and every outcome *)
+Theorem query_sound : forall r fs h,
+  In h (query_rule rx r fs) ->
+  exists c b,
+    Forall (fun g => In g fs) c /\
+    Forall2 (fun g p => pred_match g p = true) c (r_body r) /\
+    bind_all (r_body r) c [] = Some b /\
+    eval_exprs rx (r_exprs r) b = Ok true /\
+    inst_head (r_head r) b = Some h.
+Proof.
+  intros r fs h. unfold query_rule.
+  destruct (apply_rule rx r fs []) as [res e] eqn:Hap. cbn [fst]. unfold apply_rule in Hap.
+  intro Hin. destruct (consume_in _ _ _ _ _ Hap h Hin) as [[]|[c [b [Hc [Hb [He Hi]]]]]].
+  apply combos_in in Hc as [Ha Hm]. exists c, b. auto.
+Qed.
+
+(* every head instance has an Equal fact in the result *)
+Theorem query_complete : forall r fs,
+  snd (apply_rule rx r fs []) = None ->
+  forall c b h,
+    Forall (fun g => In g fs) c ->
+    Forall2 (fun g p => pred_match g p = true) c (r_body r) ->
+    bind_all (r_body r) c [] = Some b ->
+    eval_exprs rx (r_exprs r) b = Ok true ->
+    inst_head (r_head r) b = Some h ->
+    InA fact_eqv h (query_rule rx r fs).
+Proof.
+  intros r fs Hno c b h Ha Hm Hb He Hi. unfold query_rule.
+  destruct (apply_rule rx r fs []) as [res e] eqn:Hap. cbn [fst snd] in *. subst e.
+  unfold apply_rule in Hap.
+  assert (Hc : In c (combos (r_body r) fs)) by (apply combos_in; split; assumption).
+  assert (Ht : tuple_out r c = TEmit h).
+  { apply tuple_out_emit. exists b. unfold fires. auto. }
+  apply InA_fact_in. exact (consume_complete _ _ _ _ _ _ Hap Hc Ht).
+Qed.
+
+Theorem query_exact : forall r fs,
+  snd (apply_rule rx r fs []) = None ->
+  forall h, InA fact_eqv h (query_rule rx r fs) <->
+    exists c b h',
+      Forall (fun g => In g fs) c /\
+      Forall2 (fun g p => pred_match g p = true) c (r_body r) /\
+      bind_all (r_body r) c [] = Some b /\
+      eval_exprs rx (r_exprs r) b = Ok true /\
+      inst_head (r_head r) b = Some h' /\ fact_eqv h h'.
+Proof.
+  intros r fs Hno h. split.
+  - intro Hin. apply InA_alt in Hin as [h' [Heq Hin]].
+    destruct (query_sound r fs h' Hin) as [c [b [Ha [Hm [Hb [He Hi]]]]]].
+    exists c, b, h'. auto 7.
+  - intros [c [b [h' [Ha [Hm [Hb [He [Hi Heq]]]]]]]].
+    eapply InA_eqA; [exact fact_eqv_Equivalence | symmetry; exact Heq|].
+    eapply query_complete; eassumption.
+Qed.
+
+(** * 7. Order independence *)
+
+(* programs with Equal base facts and the same rules have Equal least models *)
+Lemma Derivable_eqv rules rules' facts facts' :
+  (forall r, In r rules -> In r rules') ->
+  (forall f, In f facts -> InA fact_eqv f facts') ->
+  wsim (Derivable rules facts) (Derivable rules' facts').
+Proof.
+  intros Hincl Hbase. apply Derivable_sim.
+  - intros f Hin. apply Hbase in Hin. apply InA_alt in Hin as [g [Hfg Hg]].
+    exists g. split; [apply D_base; exact Hg | apply prel_iff; exact Hfg].
+  - intros r c b f Hin Hall Hm [Hb [He Hh]]. exists f. split; [|apply prel_refl].
+    eapply D_rule; [apply Hincl; exact Hin | exact Hall | exact Hm | exact Hb | exact He | exact Hh].
+Qed.
+
+Lemma run_InA_incl lim lim' rules rules' facts facts' a b :
+  (forall r, In r rules -> In r rules') ->
+  (forall f, In f facts -> InA fact_eqv f facts') ->
+  run rx lim rules facts = (a, None) -> run rx lim' rules' facts' = (b, None) ->
+  forall x, InA fact_eqv x a -> InA fact_eqv x b.
+Proof.
+  intros Hincl Hbase Ha Hb x Hx.
+  apply InA_alt in Hx as [y [Hxy Hy]].
+  pose proof (run_sound _ _ _ _ _ Ha y Hy) as Hd.
+  destruct (Derivable_eqv rules rules' facts facts' Hincl Hbase y Hd) as [y' [Hd' Hyy]].
+  pose proof (run_complete _ _ _ _ Hb y' Hd') as Hin.
+  eapply InA_eqA; [exact fact_eqv_Equivalence | | exact Hin].
+  symmetry. etransitivity; [exact Hxy | exact (prel_eqb _ _ Hyy)].
+Qed.
+
+(* the same facts up to Equal (in any order, with any multiplicity) and the
+   same rules (likewise): the same world up to Equal *)
+Theorem run_equivlist : forall lim lim' rules rules' facts facts' a b,
+  equivlistA fact_eqv facts facts' -> (forall r, In r rules <-> In r rules') ->
+  run rx lim rules facts = (a, None) -> run rx lim' rules' facts' = (b, None) ->
+  equivlistA fact_eqv a b.
+Proof.
+  intros lim lim' rules rules' facts facts' a b He Hrr Ha Hb x. split.
+  - eapply (run_InA_incl lim lim' rules rules' facts facts'); try eassumption.
+    + intros r H. apply Hrr. exact H.
+    + intros f H. apply He. apply In_InA_fact. exact H.
+  - eapply (run_InA_incl lim' lim rules' rules facts' facts); try eassumption.
+    + intros r H. apply Hrr. exact H.
+    + intros f H. apply He. apply In_InA_fact. exact H.
+Qed.
+
+Theorem run_perm : forall lim lim' rules rules' facts facts' a b,
+  NoDupA fact_eqv facts ->
+  Permutation facts facts' -> Permutation rules rules' ->
+  run rx lim rules facts = (a, None) -> run rx lim' rules' facts' = (b, None) ->
+  PermutationA fact_eqv a b.
+Proof.
+  intros lim lim' rules rules' facts facts' a b Hn Pf Pr Ha Hb.
+  assert (Hn' : NoDupA fact_eqv facts').
+  { eapply PermutationA_preserves_NoDupA; [exact fact_eqv_Equivalence | | exact Hn].
+    apply Permutation_PermutationA; [exact fact_eqv_Equivalence | exact Pf]. }
+  apply NoDupA_equivlistA_PermutationA; [exact fact_eqv_Equivalence | | |].
+  - exact (run_nodupA _ _ _ _ _ Hn Ha).
+  - exact (run_nodupA _ _ _ _ _ Hn' Hb).
+  - eapply (run_equivlist lim lim' rules rules' facts facts'); try eassumption.
+    + apply PermutationA_equivlistA; [exact fact_eqv_Equivalence|].
+      apply Permutation_PermutationA; [exact fact_eqv_Equivalence | exact Pf].
+    + intro r. split; intro H.
+      * eapply Permutation_in; eassumption.
+      * eapply Permutation_in; [apply Permutation_sym|]; eassumption.
+Qed.
+
+(* ------------------------------------------------------------------ *)
+(** * The set-free corollaries: syntactic membership *)
+
+(* closure, syntactically *)
+Lemma run_ok_closed_setfree : forall lim rules facts fs,
   setfree_facts facts -> setfree_rules rules ->
   run rx lim rules facts = (fs, None) ->
   forall r c b f, In r rules -> In c (combos (r_body r) fs) -> fires r c b f -> In f fs.
@@ -914,21 +1870,7 @@ Proof.
   apply fact_in_In; [exact Hfs | apply Hall; exact Hin].
 Qed.
 
-Theorem run_ok_is_fixpoint : forall lim rules facts fs,
-  setfree_facts facts -> setfree_rules rules ->
-  run rx lim rules facts = (fs, None) ->
-  forall r, In r rules -> forall nf, apply_rule rx r fs [] = (nf, None) ->
-  forall f, In f nf -> fact_in f fs = true.
-Proof.
-  intros lim rules facts fs Hsf Hsr H r Hr nf Hap f Hf.
-  unfold apply_rule in Hap.
-  destruct (consume_in _ _ _ _ _ Hap f Hf) as [[]|[c [b [Hc Hfi]]]].
-  apply In_fact_in. eapply run_ok_closed; eassumption.
-Qed.
-
-(** * 3. Completeness *)
-
-Theorem run_complete : forall lim rules facts fs,
+Theorem run_complete_setfree : forall lim rules facts fs,
   setfree_facts facts -> setfree_rules rules ->
   run rx lim rules facts = (fs, None) ->
   forall f, Derivable rules facts f -> In f fs.
@@ -936,14 +1878,12 @@ Proof.
   intros lim rules facts fs Hsf Hsr H. apply Derivable_strong_ind.
   - intros f Hf. eapply run_extends; eassumption.
   - intros r c b f Hr _ Hall Hm Hb He Hh.
-    eapply (run_ok_closed _ _ _ _ Hsf Hsr H r c b f Hr).
+    eapply (run_ok_closed_setfree _ _ _ _ Hsf Hsr H r c b f Hr).
     + apply combos_in. split; [exact Hall | exact Hm].
     + unfold fires. auto.
 Qed.
 
-(** * 5. C05: the result is exactly the least model *)
-
-Theorem C05_least_model : forall lim rules facts fs,
+Theorem C05_least_model_setfree : forall lim rules facts fs,
   NoDup facts -> setfree_facts facts -> setfree_rules rules ->
   run rx lim rules facts = (fs, None) ->
   (forall f, In f fs <-> Derivable rules facts f) /\ NoDup fs.
@@ -951,7 +1891,7 @@ Proof.
   intros lim rules facts fs Hn Hsf Hsr H. split.
   - intros f. split.
     + eapply run_sound; exact H.
-    + eapply run_complete; eassumption.
+    + eapply run_complete_setfree; eassumption.
   - eapply run_nodup_gen; eassumption.
 Qed.
 
@@ -969,9 +1909,7 @@ Proof.
   intros r c b f Hr _ Hall Hm Hbd He Hh. eapply Hc; eassumption.
 Qed.
 
-(** * 6. Queries *)
-
-Theorem query_exact : forall r fs,
+Theorem query_exact_setfree : forall r fs,
   setfree_facts fs -> setfree_pred (r_head r) = true ->
   snd (apply_rule rx r fs []) = None ->
   forall h, In h (query_rule rx r fs) <->
@@ -998,22 +1936,6 @@ Proof.
       eapply Forall_impl; [|exact Ha]. intros x Hx.
       unfold setfree_facts in Hfs. rewrite Forall_forall in Hfs. apply Hfs; exact Hx. }
     apply pred_eqb_true_r in Heq; [|exact Hsh]. subst g. exact Hg.
-Qed.
-
-(* the left-to-right direction holds for every rule, every world and every outcome *)
-Theorem query_sound : forall r fs h,
-  In h (query_rule rx r fs) ->
-  exists c b,
-    Forall (fun g => In g fs) c /\
-    Forall2 (fun g p => pred_match g p = true) c (r_body r) /\
-    bind_all (r_body r) c [] = Some b /\
-    eval_exprs rx (r_exprs r) b = Ok true /\
-    inst_head (r_head r) b = Some h.
-Proof.
-  intros r fs h. unfold query_rule.
-  destruct (apply_rule rx r fs []) as [res e] eqn:Hap. cbn [fst]. unfold apply_rule in Hap.
-  intro Hin. destruct (consume_in _ _ _ _ _ Hap h Hin) as [[]|[c [b [Hc [Hb [He Hi]]]]]].
-  apply combos_in in Hc as [Ha Hm]. exists c, b. auto.
 Qed.
 
 (** * 8 (rest). Limits *)
@@ -1076,9 +1998,7 @@ Lemma expr_err_not_limit e :
   expr_err e = true \/ e = EInvalidRule -> e <> EMaxFacts /\ e <> EMaxIterations.
 Proof. intros [H|H]; split; intro Hc; subst; discriminate. Qed.
 
-(** * 7. Order independence *)
-
-Theorem run_perm : forall lim lim' rules rules' facts facts' a b,
+Theorem run_perm_setfree : forall lim lim' rules rules' facts facts' a b,
   setfree_facts facts -> setfree_rules rules -> NoDup facts ->
   Permutation facts facts' -> Permutation rules rules' ->
   run rx lim rules facts = (a, None) -> run rx lim' rules' facts' = (b, None) ->
@@ -1092,13 +2012,62 @@ Proof.
   { unfold setfree_rules in *. rewrite Forall_forall in *. intros x Hx. apply Hsr.
     eapply Permutation_in; [apply Permutation_sym; exact Pr | exact Hx]. }
   assert (Hn' : NoDup facts') by (eapply Permutation_NoDup; eassumption).
-  destruct (C05_least_model _ _ _ _ Hn Hsf Hsr Ha) as [Hma Hna].
-  destruct (C05_least_model _ _ _ _ Hn' Hsf' Hsr' Hb) as [Hmb Hnb].
+  destruct (C05_least_model_setfree _ _ _ _ Hn Hsf Hsr Ha) as [Hma Hna].
+  destruct (C05_least_model_setfree _ _ _ _ Hn' Hsf' Hsr' Hb) as [Hmb Hnb].
   apply NoDup_Permutation; [exact Hna | exact Hnb|].
   intros f. rewrite Hma, Hmb. apply Derivable_perm; assumption.
 Qed.
 
+(* on set-free facts Predicate.Equal is equality, and the statements up to
+   Equal are the syntactic ones *)
+Lemma PermutationA_setfree a b : setfree_facts a -> PermutationA fact_eqv a b -> Permutation a b.
+Proof.
+  intros Hs H. induction H as [|x y l l' Hxy H IH|x y l|l1 l2 l3 H1 IH1 H2 IH2].
+  - constructor.
+  - inversion Hs as [|x0 l0 Hx Hl]; subst.
+    apply pred_eqb_true_l in Hxy; [|exact Hx]. subst y. constructor. apply IH. exact Hl.
+  - apply perm_swap.
+  - pose proof (IH1 Hs) as P1. eapply Permutation_trans; [exact P1|]. apply IH2.
+    unfold setfree_facts in *. rewrite Forall_forall in *. intros f Hf. apply Hs.
+    eapply Permutation_in; [apply Permutation_sym; exact P1 | exact Hf].
+Qed.
+
+Lemma NoDup_setfree_NoDupA fs : setfree_facts fs -> NoDup fs -> NoDupA fact_eqv fs.
+Proof.
+  intros Hs Hn. induction Hn as [|f l Hf Hn IH]; constructor.
+  - inversion Hs as [|x0 l0 Hx Hl]; subst. intro Hin. apply InA_alt in Hin as [g [Hfg Hg]].
+    apply pred_eqb_true_l in Hfg; [|exact Hx]. subst g. contradiction.
+  - apply IH. inversion Hs; assumption.
+Qed.
+
+
 End WithRx.
+
+(* ------------------------------------------------------------------ *)
+(** * Deciding the hypotheses on concrete data *)
+
+Fixpoint nodupA_b (fs : list pred) : bool :=
+  match fs with [] => true | f :: l => negb (fact_in f l) && nodupA_b l end.
+
+Lemma nodupA_b_ok fs : nodupA_b fs = true -> NoDupA fact_eqv fs.
+Proof.
+  induction fs as [|f l IH]; cbn [nodupA_b]; intro H; constructor;
+    apply andb_true_iff in H as [H1 H2]; [|apply IH; exact H2].
+  intro Hin. apply InA_fact_in in Hin. rewrite Hin in H1. discriminate H1.
+Qed.
+
+Definition equivlist_b (a b : list pred) : bool :=
+  forallb (fun f => fact_in f b) a && forallb (fun f => fact_in f a) b.
+
+Lemma equivlist_b_iff a b : equivlist_b a b = true <-> equivlistA fact_eqv a b.
+Proof.
+  unfold equivlist_b. rewrite andb_true_iff, !forallb_forall. split.
+  - intros [H1 H2] x. split; intro Hx; apply InA_alt in Hx as [y [Hxy Hy]];
+      (eapply InA_eqA; [exact fact_eqv_Equivalence | symmetry; exact Hxy |]); apply InA_fact_in.
+    + apply H1. exact Hy.
+    + apply H2. exact Hy.
+  - intro H. split; intros f Hf; apply InA_fact_in; apply H; apply In_InA_fact; exact Hf.
+Qed.
 
 (* ------------------------------------------------------------------ *)
 (** * 9. Concrete programs *)
@@ -1153,7 +2122,7 @@ Example anc_least_model :
   (forall f, In f (fst (run rx0 lim0 anc_rules anc_facts)) <-> Derivable rx0 anc_rules anc_facts f)
   /\ NoDup (fst (run rx0 lim0 anc_rules anc_facts)).
 Proof.
-  apply (C05_least_model rx0 lim0); [exact anc_nodup | exact anc_setfree_facts
+  apply (C05_least_model_setfree rx0 lim0); [exact anc_nodup | exact anc_setfree_facts
     | exact anc_setfree_rules | vm_compute; reflexivity].
 Qed.
 
@@ -1168,7 +2137,7 @@ Example anc_perm :
   Permutation (fst (run rx0 lim0 anc_rules anc_facts))
               (fst (run rx0 lim0 (rev anc_rules) (rev anc_facts))).
 Proof.
-  eapply (run_perm rx0 lim0 lim0 anc_rules (rev anc_rules) anc_facts (rev anc_facts));
+  eapply (run_perm_setfree rx0 lim0 lim0 anc_rules (rev anc_rules) anc_facts (rev anc_facts));
     [exact anc_setfree_facts | exact anc_setfree_rules | exact anc_nodup
     | apply Permutation_rev | apply Permutation_rev
     | vm_compute; reflexivity | vm_compute; reflexivity].
@@ -1209,7 +2178,7 @@ Example q_exact_instance :
     inst_head (r_head q_rule) b = Some (big (tint 6)).
 Proof.
   destruct q_hyps as [H1 [H2 H3]].
-  apply (query_exact rx0 q_rule q_facts H1 H2 H3). vm_compute. tauto.
+  apply (query_exact_setfree rx0 q_rule q_facts H1 H2 H3). vm_compute. tauto.
 Qed.
 
 (* an expression error ends the stream; the query keeps what was produced before:
@@ -1231,23 +2200,46 @@ Example q_invalid_run :
   run rx0 lim0 [q_rule_invalid] q_facts = (q_facts, Some EInvalidRule).
 Proof. vm_compute. reflexivity. Qed.
 
-(* the set-free hypothesis of [run_complete] is necessary: with set constants
-   Set.Equal identifies {1,1} with {1,2} (in that direction), so a derivable
-   fact is swallowed by [insert_fact] *)
+(* ---- set constants, repeated elements included ---- *)
 Definition sp (t : term) : pred := {| p_name := [112%N]; p_terms := [t] |}.
 Definition sq (t : term) : pred := {| p_name := [113%N]; p_terms := [t] |}.
+Definition sr (t : term) : pred := {| p_name := [114%N]; p_terms := [t] |}.
+Definition st (a b : term) : pred := {| p_name := [116%N]; p_terms := [a; b] |}.
+Definition set1 : term := TSet [AInt 1].
 Definition set11 : term := TSet [AInt 1; AInt 1].
 Definition set12 : term := TSet [AInt 1; AInt 2].
+Definition set21 : term := TSet [AInt 2; AInt 1].
+Definition set112 : term := TSet [AInt 1; AInt 1; AInt 2].
+Definition set122 : term := TSet [AInt 1; AInt 2; AInt 2].
+(* q($x) <- p($x) *)
 Definition set_rule : rule :=
   {| r_head := sq (tvar 120); r_body := [sp (tvar 120)]; r_exprs := [] |}.
 
-Example run_complete_needs_setfree :
-  run rx0 lim0 [set_rule] [sp set11; sp set12] = ([sp set11; sp set12; sq set11], None) /\
-  Derivable rx0 [set_rule] [sp set11; sp set12] (sq set12) /\
-  ~ In (sq set12) [sp set11; sp set12; sq set11].
+(* Before the repair of Set.Equal the program below lost q([1,2]) in one fact
+   order (p([1,2]) was taken for a duplicate of p([1,1]) by [insert_fact]); now
+   both p's and both q's are in the world, in both fact orders *)
+Example run_sets_repaired :
+  run rx0 lim0 [set_rule] (insert_all [] [sp set11; sp set12])
+    = ([sp set11; sp set12; sq set11; sq set12], None) /\
+  run rx0 lim0 [set_rule] (insert_all [] [sp set12; sp set11])
+    = ([sp set12; sp set11; sq set12; sq set11], None).
+Proof. split; vm_compute; reflexivity. Qed.
+
+(* Equal sets are one fact for [insert_fact], which keeps the first
+   representative: membership in the world is membership up to Equal ([InA
+   fact_eqv]), not [In] *)
+(* p($x) <- r($x) *)
+Definition set_rule2 : rule :=
+  {| r_head := sp (tvar 120); r_body := [sr (tvar 120)]; r_exprs := [] |}.
+
+Example run_complete_modulo_equal :
+  run rx0 lim0 [set_rule2] [sp set12; sr set21] = ([sp set12; sr set21], None) /\
+  Derivable rx0 [set_rule2] [sp set12; sr set21] (sp set21) /\
+  ~ In (sp set21) [sp set12; sr set21] /\
+  InA fact_eqv (sp set21) [sp set12; sr set21].
 Proof.
-  split; [vm_compute; reflexivity | split].
-  - apply (D_rule rx0 [set_rule] [sp set11; sp set12] set_rule [sp set12] [([120%N], set12)]).
+  split; [vm_compute; reflexivity | split; [|split]].
+  - apply (D_rule rx0 [set_rule2] [sp set12; sr set21] set_rule2 [sr set21] [([120%N], set21)]).
     + left; reflexivity.
     + constructor; [apply D_base; right; left; reflexivity | constructor].
     + constructor; [vm_compute; reflexivity | constructor].
@@ -1255,6 +2247,162 @@ Proof.
     + vm_compute; reflexivity.
     + vm_compute; reflexivity.
   - cbn [In]. intuition discriminate.
+  - apply InA_fact_in. vm_compute. reflexivity.
+Qed.
+
+(** Before the repair of Set.Intersect / Set.Union the operators copied the
+    repetitions of their left operand and told Equal sets apart ([1,1,2] and
+    [1,2,2] are Equal; their intersections with [1] were [1,1] and [1]).  Now
+    they return each element once and Equal operands give Equal results. *)
+Example setops_respect_equal_sets :
+  term_eqb set112 set122 = true /\
+  eval_binary rx0 BIntersection set112 set1 = Ok (TSet [AInt 1]) /\
+  eval_binary rx0 BIntersection set122 set1 = Ok (TSet [AInt 1]) /\
+  eval_binary rx0 BUnion set1 set112 = Ok (TSet [AInt 1; AInt 2]) /\
+  eval_binary rx0 BUnion set1 set122 = Ok (TSet [AInt 1; AInt 2]) /\
+  eval_binary rx0 BUnion set11 (TSet []) = Ok (TSet [AInt 1]) /\
+  eval_binary rx0 BIntersection (TSet [AInt 2; AInt 1; AInt 1]) set12 = Ok (TSet [AInt 2; AInt 1]) /\
+  eval_binary rx0 BUnion set112 set1 = Ok (TSet [AInt 1; AInt 2]) /\
+  eval_binary rx0 BUnion set122 set1 = Ok (TSet [AInt 1; AInt 2]).
+Proof. vm_compute. repeat split; reflexivity. Qed.
+
+(* q($x) <- p($x), $x.intersection([1]).length() == 2   (the old witness: true
+   of [1,1,2] and false of [1,2,2] before the repair)
+   q($x) <- p($x), $x.intersection([1]).length() == 1   (true of both now) *)
+Definition inter_rule : rule :=
+  {| r_head := sq (tvar 120); r_body := [sp (tvar 120)];
+     r_exprs := [[OVal (tvar 120); OVal set1; OBin BIntersection; OUn ULength;
+                  OVal (tint 2); OBin BEqual]] |}.
+Definition inter_rule1 : rule :=
+  {| r_head := sq (tvar 120); r_body := [sp (tvar 120)];
+     r_exprs := [[OVal (tvar 120); OVal set1; OBin BIntersection; OUn ULength;
+                  OVal (tint 1); OBin BEqual]] |}.
+
+(* the program that used to be a counter-example (a repeated element in a fact
+   AND an intersection in a rule): the expression now has the same value on the two
+   Equal sets, so nothing is derivable from one that is not from the other, and
+   the two fact orders give Equal worlds *)
+Example run_sets_setops_repaired :
+  run rx0 lim0 [set_rule2; inter_rule] [sp set122; sr set112] = ([sp set122; sr set112], None) /\
+  ~ Derivable rx0 [set_rule2; inter_rule] [sp set122; sr set112] (sq set112) /\
+  run rx0 lim0 [inter_rule] (insert_all [] [sp set112; sp set122]) = ([sp set112], None) /\
+  run rx0 lim0 [inter_rule] (insert_all [] [sp set122; sp set112]) = ([sp set122], None) /\
+  run rx0 lim0 [set_rule2; inter_rule1] [sp set122; sr set112]
+    = ([sp set122; sr set112; sq set122], None) /\
+  Derivable rx0 [set_rule2; inter_rule1] [sp set122; sr set112] (sq set112) /\
+  InA fact_eqv (sq set112) [sp set122; sr set112; sq set122] /\
+  run rx0 lim0 [inter_rule1] (insert_all [] [sp set112; sp set122]) = ([sp set112; sq set112], None) /\
+  run rx0 lim0 [inter_rule1] (insert_all [] [sp set122; sp set112]) = ([sp set122; sq set122], None) /\
+  equivlistA fact_eqv [sp set112; sq set112] [sp set122; sq set122].
+Proof.
+  split; [vm_compute; reflexivity|].
+  split.
+  { intro Hd.
+    assert (Hin : InA fact_eqv (sq set112) [sp set122; sr set112]).
+    { eapply (run_complete rx0 lim0); [|exact Hd]. vm_compute. reflexivity. }
+    apply InA_fact_in in Hin. vm_compute in Hin. discriminate Hin. }
+  split; [vm_compute; reflexivity|]. split; [vm_compute; reflexivity|].
+  split; [vm_compute; reflexivity|].
+  split.
+  { apply (D_rule rx0 _ _ inter_rule1 [sp set112] [([120%N], set112)]).
+    + right; left; reflexivity.
+    + constructor; [|constructor].
+      apply (D_rule rx0 _ _ set_rule2 [sr set112] [([120%N], set112)]).
+      * left; reflexivity.
+      * constructor; [apply D_base; right; left; reflexivity | constructor].
+      * constructor; [vm_compute; reflexivity | constructor].
+      * vm_compute; reflexivity.
+      * vm_compute; reflexivity.
+      * vm_compute; reflexivity.
+    + constructor; [vm_compute; reflexivity | constructor].
+    + vm_compute; reflexivity.
+    + vm_compute; reflexivity.
+    + vm_compute; reflexivity. }
+  split; [apply InA_fact_in; vm_compute; reflexivity|].
+  split; [vm_compute; reflexivity|]. split; [vm_compute; reflexivity|].
+  apply equivlist_b_iff. vm_compute. reflexivity.
+Qed.
+
+(** Repeated elements and set operators together.  Base facts p([1,1,2]),
+    p([1,2,2]) (Equal), p([1,1]), p([1,2]), p([2,1]) (the last two Equal);
+    q($x) <- p($x), $x.contains(2), $x.length() == 3;
+    t($x,$y) <- q($x), p($y), $x.intersection($y).length() == 2, $x.union($y) == [2,1].
+    Two presentations: the facts loaded in opposite orders, the rules swapped. *)
+Definition len3_rule : rule :=
+  {| r_head := sq (tvar 120); r_body := [sp (tvar 120)];
+     r_exprs := [[OVal (tvar 120); OVal (tint 2); OBin BContains];
+                 [OVal (tvar 120); OUn ULength; OVal (tint 3); OBin BEqual]] |}.
+Definition pair_rule : rule :=
+  {| r_head := st (tvar 120) (tvar 121); r_body := [sq (tvar 120); sp (tvar 121)];
+     r_exprs := [[OVal (tvar 120); OVal (tvar 121); OBin BIntersection; OUn ULength;
+                  OVal (tint 2); OBin BEqual];
+                 [OVal (tvar 120); OVal (tvar 121); OBin BUnion; OVal set21; OBin BEqual]] |}.
+Definition rep_facts : list pred := [sp set112; sp set122; sp set11; sp set12; sp set21].
+Definition rep_rules : list rule := [len3_rule; pair_rule].
+Definition rep_base : list pred := insert_all [] rep_facts.
+Definition rep_base' : list pred := insert_all [] (rev rep_facts).
+
+Example rep_runs :
+  run rx0 lim0 rep_rules rep_base
+    = ([sp set112; sp set11; sp set12; sq set112; st set112 set112; st set112 set12], None) /\
+  run rx0 lim0 (rev rep_rules) rep_base'
+    = ([sp set21; sp set11; sp set122; sq set122; st set122 set21; st set122 set122], None).
+Proof. split; vm_compute; reflexivity. Qed.
+
+Example rep_hyps :
+  NoDupA fact_eqv rep_base /\ equivlistA fact_eqv rep_base rep_base' /\ rep_base <> rep_base'.
+Proof.
+  split; [apply nodupA_b_ok; vm_compute; reflexivity|].
+  split; [apply equivlist_b_iff; vm_compute; reflexivity | vm_compute; discriminate].
+Qed.
+
+(* C05 instantiated on it: sound, complete up to Equal, one fact per class *)
+Example rep_least_model :
+  (forall f, In f (fst (run rx0 lim0 rep_rules rep_base)) -> Derivable rx0 rep_rules rep_base f) /\
+  (forall f, Derivable rx0 rep_rules rep_base f -> InA fact_eqv f (fst (run rx0 lim0 rep_rules rep_base))) /\
+  NoDupA fact_eqv (fst (run rx0 lim0 rep_rules rep_base)).
+Proof.
+  destruct rep_hyps as [H1 _].
+  apply (C05_least_model rx0 lim0); [exact H1 | vm_compute; reflexivity].
+Qed.
+
+(* the two presentations give the same world up to Equal, although no fact
+   with a set is literally the same in both *)
+Example rep_order_free :
+  equivlistA fact_eqv (fst (run rx0 lim0 rep_rules rep_base))
+                      (fst (run rx0 lim0 (rev rep_rules) rep_base')).
+Proof.
+  destruct rep_hyps as [_ [H5 _]].
+  eapply (run_equivlist rx0 lim0 lim0 rep_rules (rev rep_rules) rep_base rep_base');
+    [exact H5 | | vm_compute; reflexivity | vm_compute; reflexivity].
+  intro r. apply in_rev.
+Qed.
+
+(* and for a permutation of one duplicate-free base, a permutation up to Equal *)
+Example rep_perm :
+  PermutationA fact_eqv (fst (run rx0 lim0 rep_rules rep_base))
+                        (fst (run rx0 lim0 (rev rep_rules) (rev rep_base))).
+Proof.
+  destruct rep_hyps as [H1 _].
+  eapply (run_perm rx0 lim0 lim0 rep_rules (rev rep_rules) rep_base (rev rep_base));
+    [exact H1 | apply Permutation_rev | apply Permutation_rev
+    | vm_compute; reflexivity | vm_compute; reflexivity].
+Qed.
+
+(* a query over a world with Equal-but-different sets: the result holds one
+   fact per class, and [query_exact] characterises it up to Equal *)
+Example set_query_exact :
+  query_rule rx0 set_rule [sp set12; sp set21; sp set11] = [sq set12; sq set11] /\
+  InA fact_eqv (sq set21) (query_rule rx0 set_rule [sp set12; sp set21; sp set11]) /\
+  ~ In (sq set21) (query_rule rx0 set_rule [sp set12; sp set21; sp set11]).
+Proof.
+  split; [vm_compute; reflexivity | split].
+  - apply query_exact; [vm_compute; reflexivity|].
+    exists [sp set21], [([120%N], set21)], (sq set21).
+    split; [repeat constructor; cbn [In]; tauto|].
+    split; [constructor; [vm_compute; reflexivity | constructor]|].
+    repeat split; vm_compute; reflexivity.
+  - vm_compute. intuition discriminate.
 Qed.
 
 (* limits: a chain c1 <- c0, c2 <- c1, ..., c5 <- c4 over the single fact c0.
@@ -1298,6 +2446,26 @@ Print Assumptions run_complete.
 Print Assumptions C05_least_model.
 Print Assumptions query_exact.
 Print Assumptions run_perm.
+Print Assumptions run_equivlist.
+Print Assumptions run_complete_rel.
+Print Assumptions query_complete.
+Print Assumptions run_nodupA.
+Print Assumptions term_eqb_sym.
+Print Assumptions term_eqb_trans.
+Print Assumptions pred_eqb_sym.
+Print Assumptions pred_eqb_trans.
+Print Assumptions eval_exprs_rel.
+Print Assumptions run_complete_setfree.
+Print Assumptions C05_least_model_setfree.
+Print Assumptions query_exact_setfree.
+Print Assumptions run_perm_setfree.
+Print Assumptions run_sets_setops_repaired.
+Print Assumptions setops_respect_equal_sets.
+Print Assumptions eval_binary_rel.
+Print Assumptions set_intersect_equal.
+Print Assumptions set_union_equal.
+Print Assumptions rep_least_model.
+Print Assumptions rep_order_free.
 Print Assumptions run_nodup.
 Print Assumptions run_extends.
 Print Assumptions run_ok_is_fixpoint.
